@@ -16,6 +16,14 @@ package db
 // unused-sequence documents, and read-backs through the real read API (expected vs. actual).
 // No property is judged here: Trace_WriteAtomic.tla evaluates AllOrNothing / NoSwallow on these records (pass P) and the
 // operation order against the phase structure (pass C).
+//
+// Decorator vs. type assertions: sgbucket.DataStore already contains the KV, xattr and subdoc operations (base.AsSubdocStore
+// is satisfied by the embedding); base.AsViewStore (access queries) needs the explicit ViewStore forwarding below; the
+// `.(*base.MetadataStore)` assertions only select the dual-store code path and fall through.  Only operations issued by the
+// goroutine of the request are counted: the change cache reads principal documents through db.MetadataStore in the background.
+// Completeness is checked by pass C (no key class may change without a recorded applied write).
+// Knobs: MaxSequenceIncrFrequency = 0 (sequence batches of one), CachedCCVEnabled = false (post-commit removal of obsolete
+// attachments exists), BcryptCost 4, OldRevExpirySeconds 24h (no expiry between the two snapshots of a run).
 
 import (
 	"context"
@@ -24,7 +32,6 @@ import (
 	"encoding/hex"
 	"errors"
 	"fmt"
-	"net/http"
 	"os"
 	"runtime"
 	"sort"
@@ -485,8 +492,8 @@ type vC11CacheEnt struct {
 type vC11Run struct {
 	h      *vC11H
 	id     int
-	doc    string   // document id of this run
-	user   string   // principal names of this run
+	doc    string // document id of this run
+	user   string // principal names of this run
 	user2  string
 	role   string
 	email  string
@@ -1603,5 +1610,3 @@ func vC11Scenarios(h *vC11H) []*vC11Scn {
 			}},
 	}
 }
-
-var _ = http.StatusOK
